@@ -19,7 +19,7 @@ RULE = ("direct calls: random GEMINI object (6 classes + MI, both ovo flags, nam
 ASSUMPTIONS = ["scipy.optimize.linprog (HiGHS) solves the transport LP exactly (reference for Wasserstein, n<=16)",
                "IEEE double arithmetic; tolerance 1e-9 relative (1e-7 for the LP, sqrt-aware for MMD)"]
 EVAL_COUNTER = "evaluate_calls"
-REQUIRED = {"quick": {"compared": 1500, "registry_compared": 26, "insitu_compared": 100,
+REQUIRED = {"quick": {"calls_beyond_2^20_elements": 12, "compared": 1500, "registry_compared": 26, "insitu_compared": 100,
                       "compared:kl": 50, "compared:tv": 50, "compared:hellinger": 50, "compared:chi2": 50,
                       "compared:mmd": 100, "compared:wasserstein": 100, "named_affinity_compared": 700, "mi_alias_compared": 100, "inplace_refresh_calls": 400, "float32_predictions_compared": 60, "clipped_band_compared": 300, "clipped_band_narrow": 150, "clipped_band_compared:mmd": 60},
             "thorough": {"compared": 20000, "registry_compared": 100, "insitu_compared": 2000}}
@@ -44,6 +44,8 @@ class State:
     def on_eval(self, gem, P, A, return_grad, res, orig):
         ctx = self.ctx
         ctx.count("evaluate_calls")
+        if P.ndim == 2 and P.shape[0] * P.shape[1] ** 2 > 2 ** 20:
+            ctx.count("calls_beyond_2^20_elements")
         value = res[0] if return_grad else res
         dist = _gem.class_distance(gem)
         if dist is None:
